@@ -104,6 +104,21 @@ pub fn exec(case: &Value) -> Vec<Value> {
                    "wb": wb.iter().map(|(a, z)| json!([a, z])).collect::<Vec<_>>(),
                    "remove": cp.cps(&rm), "full": cp.cps(&fu)})
         }
+        "cleanlong" => {
+            // tens of thousands of characters (positions beyond 16 bits, blocks of any internal chunking): `words` words of
+            // `wlen` copies of `unit`, separated by `sep`, behind one leading blank
+            let unit = get_str(case, "unit");
+            let sep = get_str(case, "sep");
+            let word = unit.repeat(get_u(case, "wlen"));
+            let s = format!(" {}", vec![word; get_u(case, "words")].join(sep));
+            let flags = |t: &str| -> Vec<bool> { clusters(t, g).iter().map(|c| c.chars().all(char::is_whitespace)).collect() };
+            let cl = guard(|| clean(&s, g)).unwrap_or_else(|m| { fail("clean", m); String::new() });
+            let wb = guard(|| word_boundaries(&s, g)).unwrap_or_else(|m| { fail("word_boundaries", m); vec![] });
+            let rm = guard(|| remove(&s, g)).unwrap_or_else(|m| { fail("remove", m); String::new() });
+            let fu = guard(|| full(&s, g)).unwrap_or_else(|m| { fail("full", m); String::new() });
+            json!({"kind": kind, "g": g, "nbytes": s.len(), "ws": flags(&s), "cleanws": flags(&cl), "removews": flags(&rm), "fullws": flags(&fu),
+                   "wb": wb.iter().map(|(a, z)| json!([a, z])).collect::<Vec<_>>()})
+        }
         "pair" => {
             let (f0, t0) = (text_of(case, "from", "fslots"), text_of(case, "to", "tslots"));
             refill(&mut b1, &f0, g);
@@ -249,6 +264,12 @@ pub fn gen(seed: u64, n: usize) -> Vec<Value> {
     for i in 0..n {
         let g = rng.random_bool(0.5);
         match i % 4 {
+            0 if i == 12 => {
+                // one text per run of tens of thousands of characters: clusters of two code points everywhere, CR LF or an
+                // ideographic space between the words
+                let (unit, sep) = [("e\u{0301}", "\r\n"), ("\u{1F1E9}\u{1F1EA}", "\u{3000}"), ("a", " \r\n")][rng.random_range(0..3)];
+                out.push(json!({"kind": "cleanlong", "unit": unit, "sep": sep, "wlen": rng.random_range(15..=25), "words": rng.random_range(600..=1000), "g": g}));
+            }
             0 => {
                 // a few texts change the byte width of their characters at every position, several hundred times
                 if i % 400 == 8 {
